@@ -340,28 +340,28 @@ impl LLFree<'_> {
             self.trees
                 .reserve_or_steal(i, class, 1 << order, self.policy)
         {
-            let class_len = self
-                .locals
-                .class_locals(target_class)
-                .expect("Invalid class");
-            // Target might have less locals or none
-            assert!(class_len > 0, "No locals for class {target_class:?}");
-            let local = local % class_len;
-
             // Perform lower alloc, if it fails undo reservation
             match self.lower.get(i.as_row(), order, None) {
                 Ok(frame) => {
                     // Swap and unreserve old tree
-                    if reserved
-                        && let Some(Reservation { row, free, .. }) = self.locals.swap(
+                    if reserved {
+                        // Only a reservation needs a local slot:
+                        // a steal might target a class with less locals or none
+                        let class_len = self
+                            .locals
+                            .class_locals(target_class)
+                            .expect("Invalid class");
+                        assert!(class_len > 0, "No locals for class {target_class:?}");
+                        let local = local % class_len;
+                        if let Some(Reservation { row, free, .. }) = self.locals.swap(
                             target_class,
                             local,
                             frame.as_tree(),
                             free - (1 << order),
-                        )
-                    {
-                        self.trees
-                            .unreserve(row.as_tree(), free, target_class, self.policy);
+                        ) {
+                            self.trees
+                                .unreserve(row.as_tree(), free, target_class, self.policy);
+                        }
                     }
                     Ok((frame, target_class))
                 }
